@@ -4,7 +4,7 @@
    (integer root bisection, rational root and rational power),
    Fmt/Flag.v (the exact flag through Value add/sub/mul/div/neg). *)
 From FendV Require Import Base.Prelude Fmt.Rat Fmt.Format Fmt.Lex Fmt.IntFmtProofs Fmt.LexProofs
-  Fmt.ExpansionProofs Fmt.RoundTripProofs Fmt.TruncProofs Fmt.SfProofs Fmt.Root Fmt.RootProofs Fmt.Flag Fmt.FlagProofs Fmt.RealFlag Fmt.RealFlagProofs.
+  Fmt.ExpansionProofs Fmt.RoundTripProofs Fmt.TruncProofs Fmt.SfProofs Fmt.Root Fmt.RootProofs Fmt.Flag Fmt.FlagProofs Fmt.RealFlag Fmt.RealFlagProofs Fmt.Complex Fmt.ComplexProofs.
 From Coq Require Import QArith.
 Open Scope N_scope.
 
@@ -18,6 +18,32 @@ Theorem C03_marker : forall fuel vexact st base sep x s,
   vexact = true /\ exists v, read_rendering sep base s = Some v /\ (v == qval x)%Q.
 Proof. exact fmt_value_marker. Qed.
 Print Assumptions C03_marker.
+
+(* COMPLEX VALUES (both parts shown, imaginary suffix, any style / base):
+   the term-aware formatter with an empty term IS the verified formatter ... *)
+Theorem C03_format_term_nil : forall fuel st base sep x,
+  bigrat_format_t [] fuel st base sep x = bigrat_format fuel st base sep x.
+Proof. exact bigrat_format_t_nil. Qed.
+Print Assumptions C03_format_term_nil.
+
+(* ... and a rendering  re + im i  shown without `approx.` means: the value was
+   flagged exact, neither part is an approximated multiple of pi, and the
+   plain renderings of BOTH parts are flagged exact and denote the parts
+   exactly (so a part that dropped digits marks the whole) *)
+Theorem C03_complex_marker : forall fuel vexact st base sep re re_ov im im_ov s,
+  base_prefix_ok base = true -> wfr re = true -> wfr im = true ->
+  (forall b, vexact = b -> st <> SSf 0) ->
+  complex_format fuel vexact st base sep re re_ov im im_ov = Ok (s, true) ->
+  vexact = true /\
+  (rat_is_zero re = false \/ rat_is_zero im = true ->
+     re_ov = false /\ exists st' t v, bigrat_format fuel st' base sep re = Ok (t, true) /\
+                       read_rendering sep base t = Some v /\ (v == qval re)%Q) /\
+  (rat_is_zero im = false ->
+     im_ov = false /\ exists st' t v x', (x' = im \/ x' = rat_neg im) /\
+                       bigrat_format fuel st' base sep x' = Ok (t, true) /\
+                       read_rendering sep base t = Some v /\ (v == qval x')%Q).
+Proof. exact complex_marker_lemma. Qed.
+Print Assumptions C03_complex_marker.
 
 (* n decimal places: the text denotes floor(|x| b^n) / b^n with x's sign
    (within one unit of the last place), and is flagged exact exactly when no
@@ -225,6 +251,13 @@ Example C03_dp_inhabited :
   /\ bigrat_format 10 (SSf 2) (BPlain 10) SepDot (mkrat false 1 300) = Ok ([48; 46; 48; 48; 51; 51], false)
   /\ reduced (mkrat false 1 300) = true.
 Proof. repeat split; vm_compute; reflexivity. Qed.
+
+Example C03_complex_inhabited :
+  complex_format 10 true (SDp 5) (BPlain 10) SepDot (mkrat false 1 2) false (mkrat false 1 3) false
+  = Ok ([48; 46; 53; 32; 43; 32; 48; 46; 51; 51; 51; 51; 51; 105], false)      (* 0.5 + 0.33333i, marked *)
+  /\ complex_format 10 true (SDp 5) (BPlain 10) SepDot (mkrat false 1 2) false (mkrat true 1 4) false
+  = Ok ([48; 46; 53; 32; 45; 32; 48; 46; 50; 53; 105], true).                   (* 0.5 - 0.25i *)
+Proof. split; vm_compute; reflexivity. Qed.
 
 Example C03_real_layer_inhabited :
   rfeval (22 # 7) (RDiv (RMul (RLit 2) RPiC) (RMul (RLit 3) RPiC)) = Ok (RSimple (2 * 1 / (3 * 1)), true)
